@@ -486,34 +486,31 @@ fn emit_dynamic_string_parts(
     scope: &EmitScope,
     context: &EmitContext,
 ) -> Result<(), CompilerError> {
-    if parts.is_empty() {
-        return Ok(());
+    for part in parts {
+        match part {
+            DynamicStringPart::Text(text) => {
+                if !text.is_empty() {
+                    out.push(json!(format!("^{text}")));
+                }
+            }
+            DynamicStringPart::Expression(expression) => {
+                out.push(json!("ev"));
+                emit_expression_ctx(expression, out, Some(context), Some(scope));
+                out.push(json!("out"));
+                out.push(json!("/ev"));
+            }
+            DynamicStringPart::Sequence(sequence) => {
+                out.push(emit_sequence(
+                    sequence,
+                    scope,
+                    out.len() + scope.param_offset,
+                    context,
+                )?);
+            }
+        }
     }
 
-    match &parts[0] {
-        DynamicStringPart::Text(text) => {
-            if !text.is_empty() {
-                out.push(json!(format!("^{text}")));
-            }
-            emit_dynamic_string_parts(&parts[1..], out, scope, context)
-        }
-        DynamicStringPart::Expression(expression) => {
-            out.push(json!("ev"));
-            emit_expression_ctx(expression, out, Some(context), Some(scope));
-            out.push(json!("out"));
-            out.push(json!("/ev"));
-            emit_dynamic_string_parts(&parts[1..], out, scope, context)
-        }
-        DynamicStringPart::Sequence(sequence) => {
-            out.push(emit_sequence(
-                sequence,
-                scope,
-                out.len() + scope.param_offset,
-                context,
-            )?);
-            emit_dynamic_string_parts(&parts[1..], out, scope, context)
-        }
-    }
+    Ok(())
 }
 
 fn emit_tag(
